@@ -81,7 +81,10 @@ def main():
             if m:
                 owner[m.group(2)] = m.group(1)
         related = {"C06": ["C06", "C07", "C12"], "C12": ["C12", "C06", "C07"], "C05": ["C05", "C11"], "C02": ["C02"], "C16": ["C16"], "C13": ["C13", "C14"], "C18": ["C18", "C16"]}
+        only = a[a.index("--only") + 1] if "--only" in a else None
         for h, subj in fixes:
+            if only and h != only:
+                continue
             diff = sh(["git", "-C", MAIN, "show", "--format=", h, "--", "include"]).stdout
             own = owner.get(h, "?")
             props = allp if "--all-checks" in a else related.get(own, [own] if own in allp else allp)
@@ -105,7 +108,7 @@ def main():
     if "--only" in a and os.path.exists(out):           # one change re-run: its row replaces the old one, the others stay
         for l in open(out):
             c = l.split("|")
-            if len(c) > 2 and c[1].strip()[:2] in ("M-", "E-"):
+            if len(c) > 2 and (c[1].strip()[:2] in ("M-", "E-") or c[1].strip().startswith("revert ")):
                 lines[c[1].strip()] = l.rstrip("\n")
     for sid, what, prop, res in rows:
         if "apply_failed" in res:
